@@ -2,7 +2,7 @@
 import srvprops
 
 PROP = "C17"
-THEOREMS = ["C17_model_smoke"]
+THEOREMS = ["C17_direct_outputs_exact", "C17_direct_once_per_connection", "C17_direct_only_listed_users", "C17_client_direct_forwarded", "C17_client_direct_ack_iff_valid"]
 
 
 def run(tier, replay=None):
